@@ -24,9 +24,9 @@
    is_edit = insert_text, delete_before_cursor, delete, text setter;
    is_pop  = one / all remaining asynchronous population steps. *)
 From Coq Require Import ZArith List Bool.
-From PTK Require Import Lib.Sx Lib.Py Model.Document Model.BufferEdit Model.C14_HistoryNav
+From PTK Require Import Lib.Sx Lib.Py Model.Document Model.BufferEdit Lib.C14_Handlers Gen.C14_Handlers Model.C14_HistoryNav
   Proofs.C14_Facts Proofs.C14_Nav Proofs.C14_Accept Proofs.C14_Mixed Proofs.C14_Sessions
-  Proofs.C14_Threaded Proofs.C14_Verdict Proofs.C14_AnyKind Proofs.C14_PrefixBF Proofs.C14_Whole.
+  Proofs.C14_Threaded Proofs.C14_Verdict Proofs.C14_AnyKind Proofs.C14_PrefixBF Proofs.C14_Whole Model.C14_Layer Proofs.C14_Yank.
 Import ListNotations.
 Open Scope Z_scope.
 
@@ -360,14 +360,56 @@ Print Assumptions C14_population_prepends.
 (* ---------------------------------------------------------------------- *)
 (* Key handlers with a numeric argument (named commands previous-history,
    next-history, beginning-of-history, end-of-history; vi k, j, <n>G, up, down;
-   emacs c-p, c-n; basic up, down): [handler_op h a] is the Buffer call the
-   handler makes for KeyPressEvent._arg = a (count = event.arg, which never
-   reaches a million).  Each is a navigation operation, so C14_browse_pure,
-   C14_edits_kept_mixed, C14_prefix_persists ... cover it for every argument. *)
+   emacs c-p, c-n; basic up, down): [handler_op h a] is the operation the
+   handler performs for KeyPressEvent._arg = a.  The handler bodies
+   (Gen/C14_Handlers.v) are regenerated from /repo's source on every run;
+   WHATEVER that table contains, a handler the model accepts is a navigation
+   operation, so C14_browse_pure, C14_edits_kept_mixed, C14_prefix_persists,
+   C14_history_is_initial_plus_accepted ... cover it for every argument. *)
 Theorem C14_key_handlers_are_navigation : forall h a o,
   handler_op h a = Some o -> is_nav o.
 Proof. exact handler_op_nav. Qed.
 Print Assumptions C14_key_handlers_are_navigation.
+
+(* ... and every row of the regenerated table is inside the model, for every
+   numeric argument (a handler edited into a shape the model does not know makes
+   this proof - or the generator - fail) *)
+Theorem C14_key_handlers_all_modelled : forall r a,
+  In r handlers -> calls_op (h_calls r) a <> None.
+Proof. exact handlers_all_modelled. Qed.
+Print Assumptions C14_key_handlers_all_modelled.
+
+(* ---------------------------------------------------------------------- *)
+(* yank-nth-arg / yank-last-arg (Model/C14_Layer.v: the layered state [xs] adds
+   Buffer.yank_nth_arg_state to [hs]; [yank_nth_arg c x n last] is
+   Buffer.yank_nth_arg(n, _yank_last_arg=last) with the word splitter
+   _QUOTED_WORDS_RE).  They READ the history: for ANY argument (none, negative,
+   out of range) and ANY yank state the command is total, the stored history,
+   the kind of History object, the working index, the number of entries and every
+   entry but the displayed one are unchanged. *)
+Theorem C14_yank_reads_only : forall c x n last,
+  Inv (xb x) ->
+  let x' := yank_nth_arg c x n last in
+  (sto (store (xb x')) = sto (store (xb x)) /\ th (xb x') = th (xb x) /\ wi (xb x') = wi (xb x) /\
+   length (wl (xb x')) = length (wl (xb x)) /\
+   (forall j, j <> Z.to_nat (wi (xb x)) -> nth_error (wl (xb x')) j = nth_error (wl (xb x)) j)) /\
+  Inv (xb x').
+Proof. exact yank_reads_only. Qed.
+Print Assumptions C14_yank_reads_only.
+
+(* Simulation: on the operations of the base model the layer's base state IS the
+   base model, so every theorem of this file transfers to the layered sessions. *)
+Theorem C14_layer_simulation : forall c ops x,
+  xb (xsteps c x (base_ops ops)) = steps c (xb x) ops.
+Proof. exact layer_simulation_steps. Qed.
+Print Assumptions C14_layer_simulation.
+
+(* The whole stored history over sessions that also use the yank commands: the
+   initial one followed by the log, to which a yank contributes nothing. *)
+Theorem C14_history_with_yank : forall c ops x,
+  Inv (xb x) -> sto (store (xb (xsteps c x ops))) = sto (store (xb x)) ++ xlog c x ops.
+Proof. exact xsteps_sto. Qed.
+Print Assumptions C14_history_with_yank.
 
 (* ---------------------------------------------------------------------- *)
 (* "Accepting succeeds only if the validator passes" *)
